@@ -42,6 +42,13 @@ func openSegment(dir string, prevIndex uint64, opt Options) (*segment, error) {
 		if err = createSegment(f, opt); err != nil {
 			return nil, err
 		}
+	} else if empty, err := isEmptyFile(f); err != nil {
+		return nil, err
+	} else if empty {
+		// left behind by a crash between creating the file and sizing it
+		if err = createSegment(f, opt); err != nil {
+			return nil, err
+		}
 	}
 	file, err := mmap.OpenFile(f, os.O_RDWR, opt.FileMode)
 	if err != nil {
